@@ -83,7 +83,15 @@ def run_case(case):
     where = dict(family=family, n=n, batch_size=bs, affinity=aff_mode, decorated=decorated, mode=mode)
     v = []
     with seams.scripted_rng(rs), seams.optimiser_spy(cb):
-        if mode == "fit":
+        if mode in ("refit_up", "refit_down"):
+            # history: the same (possibly decorated) instance was first fitted on data of another size
+            n0 = max(K, n - 2) if mode == "refit_up" else n + 2
+            X0 = seams.tiny_data(n0, 2, 4)
+            model.fit(X0, None if y is None else unique_affinity(n0))
+            del spy.log[:]
+            updates["n"] = 0
+            model.fit(X, y)
+        elif mode == "fit":
             model.fit(X, y)
         else:
             model.path(X, y, alpha_multiplier=2.0, min_features=1, max_patience=1)
@@ -130,7 +138,7 @@ def run_case(case):
                 break
         if len(blocks) % nb != 0 or not blocks:
             v.append(violation("validation_sweep_incomplete", {"calls": len(blocks), "batches_per_sweep": nb}, **where))
-    if mode == "fit":
+    if mode in ("fit", "refit_up", "refit_down"):
         if len(spy.log) != max_iter:
             v.append(violation("wrong_number_of_epochs", {"epochs": len(spy.log), "max_iter": max_iter}, **where))
         if updates["n"] != max_iter * nb:
@@ -170,6 +178,13 @@ def explorers(tier, seed):
                             for p in itertools.permutations(range(n)):
                                 for q in itertools.permutations(range(n)):
                                     cases.append((family, n, bs, aff_mode, 2, decorated, (p, q), "fit"))
+    for family in MODELS:
+        for n in (3, 5):
+            for bs in ([None] if family == "CategoricalModel" else [1, 2, None]):
+                for aff_mode in (["none"] if family == "KernelRIM" else ["none", "precomputed"]):
+                    for decorated in (False, True):
+                        for mode in ("refit_up", "refit_down"):
+                            cases.append((family, n, bs, aff_mode, 2, decorated, (), mode))
     pc = []
     for family in ("SparseLinearModel", "SparseMLPModel"):
         for n in (4, 5):
@@ -184,6 +199,7 @@ def explorers(tier, seed):
                  rule="real fit of every batched model x n in 1..7 x batch_size in 1..n+2 and None x affinity {none, computed, user precomputed with "
                       "unique entries} x {plain, decorated}; choice points = answers of RandomState.permutation: default answers (bound 0), ALL n! "
                       f"answers for the first epoch for n<={nmax_all} (bound 1), all pairs for two epochs for n<=3 (bound 2); "
+                      "plus refits of the same (decorated) instance after a fit on smaller / larger data; "
                       "non-trivial = configuration with >=2 batches and a partial last batch",
                  bound=f"deviation bound 2 completed for n<=3, bound 1 for n<={nmax_all}, bound 0 for n<=7"),
         Explorer("path_batches", "props.c10", "run_case", pc, kind="choices", chunk=8, floor=20,
